@@ -17,7 +17,7 @@ import env
 import gen
 import refavro
 import sched
-from streams import SimPipe, ReadOnlySeq, WriteOnlySink, buffered_seq
+from streams import SimPipe, ReadOnlySeq, WriteOnlySink, CountingSink, buffered_seq
 from runner import Violation, jsonable
 from props import common
 
@@ -46,7 +46,7 @@ COMPONENTS = {
     "stub": ["WriteOnlySink", "ReadOnlySeq", "SimPipe", "scheduler"],
     "oracle": ["submitted records via refavro.normal_eq", "call log of the simulated streams"],
 }
-PROBES = ["input_buffered_reader", "pair_bytesio", "pair_realfile", "pair_sink_seq", "pair_pipe", "codec_null", "codec_deflate",
+PROBES = ["output_counting_nonseekable", "input_buffered_reader", "pair_bytesio", "pair_realfile", "pair_sink_seq", "pair_pipe", "codec_null", "codec_deflate",
           "codec_bzip2", "codec_xz", "empty_file", "interval_1", "record_eq_interval", "record_gt_interval",
           "zero_byte_block", "parsed_schema", "metadata_given", "marker_default", "recode_with_first_files_metadata",
           "profile_many_records", "profile_huge_record"]
@@ -163,14 +163,23 @@ def run_one(ch, ctx):
     elif pair == 2:
         ctx.probe("pair_sink_seq")
         info = {"pair": "sink->seq"}
-        sink = WriteOnlySink()
+        counting = ch.chance(25)
+        if counting:
+            # a non-seekable output that can tell its (already non-zero) position: still a NEW file
+            ctx.probe("output_counting_nonseekable")
+            info["output"] = "non-seekable, tell() works and is non-zero (preamble already sent)"
+            sink = CountingSink()
+        else:
+            sink = WriteOnlySink()
         _write(F, sc, sink, desc, info)
-        if set(sink.ops()) - {"write", "flush", "seekable"}:
+        if set(sink.ops()) - {"write", "flush", "seekable", "tell"}:
             raise Violation("stream-calls", "writer-used-other-calls", detail=dict(info, ops=sink.ops(), forbidden=sink.forbidden), scenario=desc)
         data = sink.getvalue()
         if sink.flushed != len(data):
             # a buffering pipe / socket object would still hold these bytes when writer() returns
             raise Violation("stream-calls", "output-not-flushed-on-return", detail=dict(info, written=len(data), flushed=sink.flushed), scenario=desc)
+        if counting:
+            data = data[sink.preamble:]
         if ch.chance(30):
             # a real io.BufferedReader with a tiny buffer (open(path, "rb") with the boundary every few bytes)
             bufsize = ch.pick([1, 2, 3, 5, 8, 13, 64, 1000])
